@@ -203,6 +203,34 @@ fn raw_script(r: &mut Rng) -> String {
     format!("enc e {}", ops.join(" "))
 }
 
+/// Seeded change C03-r4-2 (first reported only by the broken tie, without an input): names that occur
+/// for the first time beyond offset 0x3FFF — where no compression pointer can address them — and are used
+/// again later, inside `emit_iter` sections of a message larger than 16 KiB, under limits before, at and
+/// behind every later item.  A candidate remembered there yields a pointer to `offset & 0x3FFF`.
+fn directed_far_names() -> Vec<String> {
+    let nt = |ls: &[&str]| name_from(&ls.iter().map(|l| l.as_bytes().to_vec()).collect::<Vec<_>>()).unwrap();
+    let item = |name: &str, rdata: &str| format!("n:d:{name} u16:1 u16:1 u32:60 pl:u {rdata} rpl");
+    let mut v = vec![];
+    for start in [16360usize, 16383, 16384, 17000, 32768, 49152] {
+        let mut ops = vec!["pl:12".to_string(), format!("iter( n:d:{} u16:1 u16:1 )", nt(&["q", "low", "org"]))];
+        // one big opaque record moves the offset to `start`
+        let big = format!("n:d:{} u16:10 u16:1 u32:60 pl:u fill:{}:00 rpl", nt(&["big", "low", "org"]), start.saturating_sub(60));
+        let mut first = vec![big];
+        for i in 0..4 {
+            first.push(item(&nt(&[format!("h{i}").as_str(), "far", "away", "test"]), "sl:0a000001"));
+            first.push(item(&nt(&[format!("l{i}").as_str(), "low", "org"]), &format!("rd:s:{}", nt(&["mx", "far", "away", "test"]))));
+        }
+        ops.push(format!("iter( {} )", first.join(" / ")));
+        ops.push(format!("iter( {} / {} )", item(&nt(&["far", "away", "test"]), "sl:0a000002"), item(&nt(&["www", "far", "away", "test"]), "sl:0a000003")));
+        ops.push("rp:000000000000000000000000".into());
+        let full = full_len(&ops) as u64;
+        for limit in [full + 2, full, full - 1, full - 20, full - 40, full - 80, full - 150, full - 250, 65535] {
+            v.push(with_limit(&ops, limit, false));
+        }
+    }
+    v
+}
+
 pub fn run(o: &Opts, rec: &mut Recorder) {
     rec.rule = "encoder scripts shaped like emit_message_parts (limit, 12-octet header place, question and 1-3 record sections written with emit_iter, items = owner name/type/class/ttl/RDLENGTH place/rdata/back-patch with A, name, MX, TXT, SRV-like, SOA-like and opaque rdata, occasionally an item failing with a non-size error or containing a nested emit_iter), each script run under limits drawn from 0..full length+2 (thorough: for one script in 12 every limit), plus raw primitive scripts under limits 0-90; a case is non-trivial when at least one write was refused for size (MaxBufferSizeExceeded or NotAllRecordsWritten); distinct by case line.  Stage 2: structured messages (tier-1 RDATA types, shared suffixes, 0-12 or 30-90 records per section, EDNS with/without options, TSIG, extended rcodes) given as wire bytes, re-encoded by Message::emit under every limit around each record boundary, the whole tail of the message and fixed/random limits (small messages: every limit), and sent through ResponseHandle::send_response over UDP (advertised payload none/0/300/512/1232/4096/65535) and TCP; deterministic adversarial messages (full candidate table before the cut, cut inside the additionals with OPT appended, complete 511/512/513-octet EDNS responses, empty-RDATA last record); a message case is non-trivial when at least one limit truncated it.  Coverage-driven families: messages built from values with one record that cannot be encoded for a non-size reason, in every section and position, under limits before / inside / behind it and through the server (SERVFAIL fallback of MessageResponse::encode); every public way to build a MessageResponse (new, edns, soa iterator, no_queries, build_no_records, error_msg with plain and extended codes); the whole server path through the real Catalog::handle_request over an in-memory zone (answers of 0-40000 octets x every advertised payload, NXDOMAIN / NODATA / REFUSED / referral / wildcard / ANY, BADVERS, NOTIMP / FORMERR paths, NSID payloads up to 65535 octets, AXFR up to 80000 octets), judged against the same request over TCP".into();
     for l in o.pre_lines.clone() {
@@ -236,6 +264,10 @@ pub fn run(o: &Opts, rec: &mut Recorder) {
     // (first item of the next `emit_iter`) and in a later one, under every limit
     for l in directed_rollback_scripts() {
         rec.stat("line.enc.directed-rollback-reuse");
+        exec(&l, rec);
+    }
+    for l in directed_far_names() {
+        rec.stat("line.enc.directed-far-names");
         exec(&l, rec);
     }
     // ---------------- stage 2: whole messages under limits, and the server's response encoder
